@@ -136,13 +136,7 @@ package core
 //@   requires cvalid(c)
 //@   assigns c.pos, c.mark
 //@   ensures ccmd(c)
-
-//@ func (*Cursor).BeginningOfLine
-//@   props C06 C01
-//@   terminates
-//@   requires cvalid(c)
-//@   assigns c.pos, c.mark
-//@   ensures ccmd(c)
+//@   ensures [near] c.pos <= clampi(old(c.pos), len(*c.line)) && c.pos >= clampi(old(c.pos), len(*c.line)) - 2
 
 //@ func (*Cursor).EndOfLine
 //@   props C06 C01
@@ -152,11 +146,12 @@ package core
 //@   ensures ccmd(c)
 
 //@ func (*Cursor).EndOfLineAppend
-//@   props C06 C01
+//@   props C06 C01 C16
 //@   terminates
 //@   requires cvalid(c) && 0 <= c.pos && c.pos <= len(*c.line)
 //@   assigns c.pos, c.mark
 //@   ensures cok(c)
+//@   ensures [forward] c.pos >= old(c.pos)
 
 //@ func (*Cursor).SetMark
 //@   props C06 C01
@@ -382,3 +377,62 @@ package core
 //@   ensures [cursor] old(cok(s.cursor)) ==> s.cursor.pos == old(s.cursor.pos) && s.cursor.mark == old(s.cursor.mark)
 //@   ensures [cursor] s.cursor.pos == old(s.cursor.pos) || s.cursor.pos == old(clampi(s.cursor.pos, len(*s.line)))
 //@   loop 1 invariant clean(*s.line)
+
+// ---------------------------------------------------------------------------------------
+// Iterations
+
+//@ func (*Iterations).Get
+//@   props C16 C06 C01
+//@   terminates
+//@   requires i != nil
+//@   assigns i.times
+//@   ensures result != 0
+//@   ensures old(len(i.times)) == 0 ==> result == 1
+
+//@ func (*Iterations).Reset
+//@   props C16 C06 C01
+//@   terminates
+//@   requires i != nil
+//@   assigns i.times, i.active, i.pending
+//@   ensures len(i.times) == 0 && !i.active && !i.pending
+
+//@ func (*Iterations).IsSet
+//@   props C06 C01
+//@   terminates
+//@   requires i != nil
+//@   pure
+//@   ensures result == i.active
+
+//@ func (*Cursor).InsertAt
+//@   props C16 C14 C02 C06 C01
+//@   terminates
+//@   requires cvalid(c) && clean(*c.line) && clean(r)
+//@   assigns *c.line, c.pos, c.mark
+//@   ensures clean(*c.line)
+//@   ensures [insert] *c.line == old(*c.line)[:clampi(old(c.pos), old(len(*c.line)))] + stripz(r) + old(*c.line)[clampi(old(c.pos), old(len(*c.line))):]
+//@   ensures [advance] c.pos == clampi(old(c.pos), old(len(*c.line))) + len(r)
+
+//@ func (*Cursor).BeginningOfLine
+//@   props C06 C01 C16
+//@   terminates
+//@   requires cvalid(c)
+//@   assigns c.pos, c.mark
+//@   ensures ccmd(c)
+//@   ensures [backward] old(0 <= c.pos && c.pos <= len(*c.line)) ==> c.pos <= old(c.pos)
+
+//@ func (*Selection).Cursor
+//@   props C16 C17 C06 C01
+//@   terminates
+//@   requires svalid(s)
+//@   assigns s.bpos, s.epos, s.cursor.pos, s.cursor.mark
+//@   ensures [at-begin] !(s.visual && s.visualLine) && old(selB(s)) != -1 ==> result == old(selB(s))
+//@   ensures [no-selection] old(selB(s)) == -1 && old(selE(s)) == -1 ==> result == clampi(old(s.cursor.pos), len(*s.line))
+//@   ensures [idempotent] selB(s) == old(selB(s)) && selE(s) == old(selE(s))
+//@   ensures [cursor] old(cok(s.cursor)) ==> s.cursor.pos == old(s.cursor.pos) && s.cursor.mark == old(s.cursor.mark)
+//@   ensures [cursor] s.cursor.pos == old(s.cursor.pos) || s.cursor.pos == clampi(old(s.cursor.pos), len(*s.line))
+//@   loop 1 invariant -1 <= cpos && cpos < len(*s.line) && cpos < pos && 0 <= pos && pos <= len(*s.line) && 0 <= bpos && bpos <= epos && epos <= len(*s.line) && cok(s.cursor)
+//@   loop 1 decreases cpos + 1
+//@   loop 2 invariant -2 <= hpos && hpos < len(*s.line) && 0 <= bpos && bpos <= len(*s.line)
+//@   loop 2 decreases hpos + 2
+//@   loop 3 invariant 0 <= cpos && cpos <= len(*s.line) && 0 <= hpos
+//@   loop 3 decreases len(*s.line) - cpos
